@@ -7,6 +7,18 @@ from .poly import FV, Poly, P
 from . import front
 
 
+def _helper_findings(I):
+    """the transform met its specification with every raw-arithmetic helper replaced by the polynomial it agrees with at 0/1
+    operands; a helper that deviates from that polynomial at some representation (kernel-mode witness) therefore breaks the
+    specification for the inputs that produce that operand"""
+    fs = getattr(I, 'helper_findings', None)
+    if not fs:
+        return None
+    f = fs[0]
+    return ('refuted', 'raw-arithmetic helper is not the field function the transform needs for every representation: %s '
+            '(contract-level witness: the operand is a value the producing field operations may deliver)' % f['info'], f['loc'])
+
+
 def log2(n):
     return n.bit_length() - 1
 
@@ -97,7 +109,7 @@ class Runner:
         if W.ctx.violations:
             v = W.ctx.violations[0]
             return ('refuted', 'kernel precondition: %s %s' % (v['callee'], v['detail']), None)
-        return None
+        return _helper_findings(I)
 
     def run_extend(s, capN, N, Next, ncols, nphase, nblock, buf, nthreads, inplace=True, restore=True):
         W, this, snap = s.world(capN, nthreads)
@@ -141,7 +153,7 @@ class Runner:
         if not inplace and any(r is inp for r, o, sz in I.writes):
             return ('refuted', 'the input buffer is written although the output is a different buffer', None)
         s.leaks = [r.name for r in W.leaks(base_heap) if r.alloc == 'malloc']      # information only
-        return None
+        return _helper_findings(I)
 
 
 THRESHOLD_NOTES = {}
